@@ -12,13 +12,22 @@ legs: MC   TLC explores all histories of <= 5 calls (parse / execute(object) / e
            Folding law Eval(Fold(e)) = Eval(e) over the expression space (operators; AND / OR / NOT / IS NULL over NULL, TRUE, FALSE, a bool column and
            comparisons that are NULL in some rows); the short-cut "a constant FALSE decides an AND wherever it
            stands" must be rejected (NULL AND FALSE is NULL).
+           Scan law: the value a scan gives a row is EvalX(e, that row) whatever the other rows of the table hold (tables
+           of <= 2 rows, a column holding TRUE in one row and 1 in another); a per-row memo keyed by the host language's
+           equality must be rejected.
       S2C  every history TLC emits (plus simulated deeper ones) is replayed on ONE connection with re-used parsed
            statement objects, interleaved with other statements, through execute and executemany; each result is
            compared with the specification and with a fresh single execution of the literal-substituted text; the
            source tables and the ledger entries are deep-compared before and after.  Folding: every constant
            expression TLC emits is run as SELECT e FROM # and as SELECT e[consts->columns] FROM #k (one row holding
            the constants) and compared with the specification's value; a wider set (decimals, dates, functions,
-           row- and context-dependent functions) is compared folded vs per-row.
+           row- and context-dependent functions) is compared folded vs per-row.  Scans: the emitted constant expressions
+           of one shape become the ROWS of one table (a column holds another constant in every row) and ONE scan evaluates
+           the expression for all of them -- row i must have the specification's value of case i --; the wider set
+           likewise, with rows holding constants that are different BQL values although the host language calls them
+           equal (1.5 / 1.50, 2.0 / 2.00, 0.0 / 0.00, in an untyped column 1 / TRUE / 1.0 / '1'), repeated and plainly
+           different ones, scanned forwards and backwards: every row vs the expression folded over that row's constants
+           (literals and parameters), compared as rendered (the digits of a decimal included).
       C2S  random histories of <= 40 calls (modelled statements and ledger statements outside the model, on two
            connections over the same data) are recorded and replayed by TLC through BQLSession's steps
            (Trace_BQLSession).  Every ledger statement is first (and last) executed on a connection of its own, once
@@ -35,7 +44,8 @@ legs: MC   TLC explores all histories of <= 5 calls (parse / execute(object) / e
            are different BQL values (1 / TRUE / 1.0 / 1.00, 0 / FALSE / 0.0, 2.5 / 2.50); a closing sweep executes
            every statement text with each of its parameter sets in turn on one connection; finally #h is REPLACED by a
            table holding other data on the long-lived connections and its statements are executed again (a result is
-           a function of the data as they are now).
+           a function of the data as they are now).  Every row of the scans over columns of constants is recorded as a
+           `fold` line (folded / that row of the scan / parameters) and judged by TLC.
 """
 import copy
 import datetime
@@ -794,6 +804,48 @@ def fold_case(ctx, conn, st, case, n):
     return good
 
 
+def fold_scans(ctx, conn, st, cases):
+    """the constant expressions TLC emitted, per SHAPE (the expression with its constants taken out, their types kept):
+    one table whose rows hold the constants of every case of that shape, ONE scan evaluating the expression per row --
+    row i must have the value the specification gives case i, whatever the other rows hold"""
+    from beanquery.parser import ast
+    from harness import tables as ht
+    shapes = {}
+    for case in cases:
+        consts = []
+
+        def column(v, consts=consts):
+            consts.append(v)
+            return {'k': 'col', 'n': 'k%d' % (len(consts) - 1)}
+        e2 = map_consts(case['e'], column)
+        key = json.dumps([e2, [SPEC_COLTYPE[c[0]] for c in consts]], sort_keys=True)
+        shapes.setdefault(key, (e2, [SPEC_COLTYPE[c[0]] for c in consts], []))[2].append((consts, case))
+    n = bad = nscans = 0
+    for key, (e2, types, members) in sorted(shapes.items()):
+        if len(members) < 2 or not types:
+            continue
+        tree = ast.Select([ast.Target(build_x(e2, st), 'r')], ast.Table('ks'), None, None, None, None, None, None)
+        for direction in ('forwards', 'backwards'):
+            ms = members if direction == 'forwards' else members[::-1]
+            conn.tables['ks'] = ht.HarnessTable('ks', [('k%d' % i, t) for i, t in enumerate(types)],
+                                                [tuple(bm.to_py(list(c), st) for c in consts) for consts, _ in ms])
+            obs = bm.project(bm.run_raw(conn, tree), st)
+            nscans += 1
+            for pos, (consts, case) in enumerate(ms):
+                n += 1
+                if not obs['ok'] or len(obs['rows']) != len(ms) or obs['rows'][pos] != [case['v']]:
+                    bad += 1
+                    ctx.violation('fold:scan-row:%s' % ('value' if obs['ok'] else 'exception:%s' % obs.get('exc')),
+                                  'constant expression evaluated for one row of a scan over columns holding the constants of other '
+                                  'expressions of the same shape in the other rows, vs the specification',
+                                  {'kind': 'foldscan', 'e': case['e'], 'v': case['v'], 'text': render_x(case['e'], st), 'shape': render_x(e2, st),
+                                   'e2': e2, 'types': types,
+                                   'row': pos + 1, 'direction': direction,
+                                   'rows': [[list(c) for c in cs] for cs, _ in ms]}, 'S2C', case['v'],
+                                  obs['rows'][pos] if obs['ok'] and len(obs['rows']) == len(ms) else obs)
+    return n, bad, nscans
+
+
 RICH = [   # (expression template, [(constant values..)..]) -- `{0}` .. are the constants, written as BQL literals
     ("{0} + {1} * {2}", [(2, 3, 4), (D('1.5'), 2, D('0.25')), (0, 0, 7)]),
     ("{0} - {1} - {2}", [(10, 3, 2), (D('10.0'), 3, D('2.5'))]),
@@ -932,6 +984,129 @@ def rich_folding(ctx, conn, trace=None):
     return n, bad
 
 
+# ---- folding over a SCAN: one column, several different constants ------------------------------------------------
+# "evaluated per row from columns holding the same constants": a column holds one constant PER ROW, and a scan evaluates
+# the compiled expression once per row -- whatever the compiled expression remembers of the rows it has already seen
+# must not show.  The rows of one scan hold constants that are different BQL values although the host language calls
+# them equal (1.5 / 1.50 / 1.500, 2.0 / 2.00, 0.0 / 0.00, in an untyped column 1 / TRUE / 1.0 / '1'), the same constant
+# twice, and plainly different ones; each row's value must be what the compiler folds the expression over that row's
+# constants to (written as literals, and passed as parameters).  Values are compared as they are rendered: digits of a
+# decimal included (str(1.50) = '1.50', -(1.50) = -1.50).
+_DECS = [D('1.5'), D('1.50'), D('2.0'), D('2.00'), D('0.0'), D('0.00'), D('1.5'), D('-1.50'), D('-1.5')]
+_DEC4 = [D('1.5'), D('1.50'), D('-1.500'), D('1.5'), D('2.00')]
+_ANYS = [1, True, D('1.0'), D('1.00'), 0, False, D('0.0'), '1', D('1.0'), 'TRUE', True, 1, datetime.date(2020, 1, 1)]
+_ONECOL = lambda vs: [(v,) for v in vs]      # noqa
+SCANS = [   # (expression template, column types, rows of constants)
+    ("str({0})", ('Decimal',), _ONECOL(_DECS)),
+    ("repr({0})", ('Decimal',), _ONECOL(_DECS)),
+    ("neg({0})", ('Decimal',), _ONECOL(_DECS)),
+    ("abs({0})", ('Decimal',), _ONECOL(_DEC4)),
+    ("round({0})", ('Decimal',), _ONECOL([D('2.5'), D('2.50'), D('3.5'), D('3.500'), D('2.5')])),
+    ("round({0}, {1})", ('Decimal', 'int'), [(D('2.675'), 2), (D('2.6750'), 2), (D('2.675'), 1), (D('2.67500'), 1), (D('2.675'), 2)]),
+    ("safediv({0}, {1})", ('Decimal', 'Decimal'), [(D('1.0'), D('4.0')), (D('1.00'), D('4.0')), (D('1.0'), D('4.00')), (D('1.0'), D('0.0')),
+                                                   (D('1.000'), D('0.00')), (D('1.0'), D('4.0'))]),
+    ("length(str({0}))", ('Decimal',), _ONECOL(_DEC4)),
+    ("str({0}) = '1.50'", ('Decimal',), _ONECOL(_DEC4)),
+    ("str(abs({0})) != str({0})", ('Decimal',), _ONECOL(_DEC4)),
+    ("-{0}", ('Decimal',), _ONECOL(_DEC4)),
+    ("{0} + {1}", ('Decimal', 'Decimal'), [(D('1.5'), D('1.0')), (D('1.50'), D('1.0')), (D('1.5'), D('1.00')), (D('1.5'), D('1.0'))]),
+    ("{0} * {1}", ('Decimal', 'int'), [(D('1.5'), 2), (D('1.50'), 2), (D('1.500'), 2), (D('1.5'), 3)]),
+    ("str({0} * {1})", ('Decimal', 'int'), [(D('1.5'), 2), (D('1.50'), 2), (D('1.500'), 2), (D('1.5'), 3)]),
+    ("int({0})", ('Decimal',), _ONECOL([D('2.7'), D('2.70'), D('2.0'), D('2.00')])),
+    ("decimal({0})", ('str',), _ONECOL(['1.5', '1.50', '1.5', 'x', '2', '2.0'])),
+    ("str({0})", ('object',), _ONECOL(_ANYS)),
+    ("repr({0})", ('object',), _ONECOL(_ANYS)),
+    ("bool({0})", ('object',), _ONECOL(_ANYS)),
+    ("int({0})", ('object',), _ONECOL(_ANYS[:11])),
+    ("decimal({0})", ('object',), _ONECOL(_ANYS[:9])),
+    ("str({0})", ('int',), _ONECOL([1, 0, 12, 1, -1])),
+    ("str({0})", ('bool',), _ONECOL([True, False, True])),
+    ("str(decimal({0}))", ('int',), _ONECOL([1, 0, 12, 1])),
+    ("upper({0})", ('str',), _ONECOL(['a', 'A', 'a', 'Ab'])),
+    ("root({0}, {1})", ('str', 'int'), [('Assets:US:Bank', 1), ('Assets:US:Bank', 2), ('Assets:US:Bank', 1), ('Expenses:Food', 2)]),
+    ("parent({0})", ('str',), _ONECOL(['Assets:US:Bank', 'Assets', 'Assets:US', 'Assets:US:Bank'])),
+    ("year({0}) + month({0})", ('date',), _ONECOL([datetime.date(2020, 2, 29), datetime.date(2021, 2, 28), datetime.date(2020, 2, 29)])),
+    ("grep({0}, {1})", ('str', 'str'), [('F.o', 'xxFoodyy'), ('f.o', 'xxFoodyy'), ('F.o', 'xxfoodyy'), ('F.o', 'xxFoodyy')]),
+]
+
+
+def strict(v):
+    """a value as it is rendered: c08's opaque projection, but a decimal keeps its digits"""
+    return ['d', str(v)] if isinstance(v, D) else c08mod.opaque(v)
+
+
+def strict_rows(res):
+    return [[strict(v) for v in row] for row in res[2]] if res[0] == 'ok' else [['exc', res[1]]]
+
+
+def all_scans():
+    """SCANS + the value sets of RICH that share a template and a type signature (>= 2 of them), as rows of one scan"""
+    out = list(SCANS)
+    for tmpl, sets in RICH:
+        groups = {}
+        for vals in sets:
+            groups.setdefault(tuple(COLTYPE[type(v)] for v in vals), []).append(vals)
+        out += [(tmpl, sig, rows) for sig, rows in groups.items() if len(rows) >= 2]
+    return out
+
+
+def scan_folding(ctx, conn, trace=None, only=None, verbose=False):
+    """every row of a scan over columns holding one constant per row vs the expression folded over that row's constants"""
+    from harness import tables as ht
+    n = bad = 0
+    for sno, (tmpl, sig, rows) in enumerate(all_scans()):
+        if only is not None and sno != only:
+            continue
+        # (a decimal parameter / cell is the value its literal denotes: 2 is written 2.0)
+        rows = [tuple(D(literal(v)) if isinstance(v, D) else v for v in vals) for vals in rows]
+        names = ['k%d' % i for i in range(len(sig))]
+        t2 = 'SELECT %s AS r FROM #ks' % tmpl.format(*names)
+        e3, _ = as_parameters(tmpl, rows[0], named=sno % 2 == 0)
+        t3 = 'SELECT %s AS r FROM #' % e3
+        folded, bound, texts = [], [], []
+        for vals in rows:
+            t1 = 'SELECT %s AS r FROM #' % tmpl.format(*[literal(v) for v in vals])
+            texts.append(t1)
+            folded.append(strict_rows(bm.run_raw(conn, bm.parsed(t1))))
+            bound.append(strict_rows(bm.run_raw(conn, bm.parsed(t3), as_parameters(tmpl, vals, named=sno % 2 == 0)[1])))
+        for direction in ('forwards', 'backwards'):
+            order = list(range(len(rows))) if direction == 'forwards' else list(reversed(range(len(rows))))
+            conn.tables['ks'] = ht.HarnessTable('ks', list(zip(names, sig)), [rows[i] for i in order])
+            res = bm.run_raw(conn, bm.parsed(t2))
+            case = {'kind': 'scan', 'scan': sno, 'template': tmpl, 'perrow_text': t2, 'rows': repr([rows[i] for i in order]),
+                    'params_text': t3, 'direction': direction}
+            if res[0] != 'ok' or len(res[2]) != len(rows):
+                if res[0] != 'ok' and any(f[0][0] == 'exc' for f in folded):
+                    ctx.skipped += 1        # some row's constants are outside the expression's domain: the scan has no value
+                    continue
+                bad += 1
+                ctx.violation('fold:scan:%s:%s' % (tmpl, 'exception:%s' % res[1] if res[0] != 'ok' else 'rows'),
+                              'a scan over columns of constants fails although the expression folds over every row', case, 'S2C',
+                              folded, res[1:] if res[0] != 'ok' else len(res[2]))
+                continue
+            per = strict_rows(res)
+            for pos, i in enumerate(order):
+                n += 1
+                ctx.case('scan-fold|%s|%s|%d' % (t2, direction, i))
+                if verbose:
+                    print('replay:', direction, texts[i], 'folded', folded[i], 'parameters', bound[i], 'row of the scan', [per[pos]])
+                if trace is not None:
+                    trace.append({'op': 'fold', 'id': 800000 + n, 'text': texts[i], 'folded': folded[i], 'perrow': [per[pos]],
+                                  'params': bound[i], 'scan': sno, 'row': pos + 1, 'of': len(rows), 'direction': direction})
+                if trace is not None:
+                    continue            # (recorded: TLC judges the line)
+                if folded[i] != [per[pos]]:
+                    bad += 1
+                    ctx.violation('fold:scan:%s' % tmpl, 'constant expression folded vs evaluated for one row of a scan over columns '
+                                  'holding other constants in the other rows', dict(case, row=pos + 1, folded_text=texts[i]), 'S2C',
+                                  folded[i], [per[pos]])
+                if direction == 'forwards' and folded[i] != bound[i]:
+                    bad += 1
+                    ctx.violation('params:scan:%s' % tmpl, 'constants passed as parameters vs written as literals',
+                                  dict(case, folded_text=texts[i]), 'S2C', folded[i], bound[i])
+    return n, bad
+
+
 _REGISTERED = False
 
 
@@ -1050,10 +1225,18 @@ def s2c(ctx):
         ctx.traces += 1
     if not nf:
         raise MachineryError('no folding case emitted')
+    # ... and per shape as the rows of ONE scan (a column holds another constant in every row)
+    nfs, bfs, nscans = fold_scans(ctx, sess.conn, sess.st, res.printed)
+    if not nfs:
+        raise MachineryError('no two folding cases of one shape: no scan over several rows of constants')
     nr, br = rich_folding(ctx, sess.conn)
+    nsr, bsr = scan_folding(ctx, sess.conn)
+    if not nsr:
+        raise MachineryError('no scan over several rows of constants was evaluated')
     ni = impure_folding(ctx, sess)
-    ctx.traces += nr + ni
-    ctx.leg('S2C', fold_cases=nf, fold_agree=gf, rich_fold_cases=nr, rich_fold_bad=br, impure_fold_cases=ni)
+    ctx.traces += nr + ni + nfs + nsr
+    ctx.leg('S2C', fold_cases=nf, fold_agree=gf, fold_scans=nscans, fold_scan_rows=nfs, fold_scan_rows_bad=bfs,
+            rich_fold_cases=nr, rich_fold_bad=br, rich_scan_rows=nsr, rich_scan_rows_bad=bsr, impure_fold_cases=ni)
 
 
 def c2s(ctx):
@@ -1206,6 +1389,8 @@ def c2s(ctx):
         # folding events: a constant expression folded / evaluated per row / with parameters (values outside the model: opaque)
         folds = []
         rich_folding(ctx, sess.conn, trace=folds)
+        # ... and every row of the scans over columns that hold another constant in every row
+        scan_folding(ctx, sess.conn, trace=folds)
         for ev in folds:
             f.write(json.dumps(ev) + '\n')
             nlines += 1
@@ -1234,7 +1419,10 @@ def c2s(ctx):
                           'the statement with the parameter values written as literals vs executed with parameters', case, 'C2S',
                           rj['spec'], ev['res'])
         elif ev['op'] == 'fold':
-            ctx.violation('c2s:fold', 'folded, per-row and parameter values differ', case, 'C2S', ev['perrow'], [ev['folded'], ev['params']])
+            ctx.violation('c2s:fold:scan' if ev.get('scan') is not None else 'c2s:fold',
+                          'folded, per-row and parameter values differ' + (' (row %d of %d of a scan over columns holding another constant '
+                                                                           'in every row)' % (ev['row'], ev['of']) if ev.get('scan') is not None else ''),
+                          case, 'C2S', ev['perrow'], [ev['folded'], ev['params']])
         elif not ev.get('same', True):
             ctx.violation('c2s:data-mutated:%s' % ev['op'], 'source data changed by the call', case, 'C2S')
         elif not ev['res']['ok'] and ev['res'].get('exc') == 'ProgrammingError' and 'cannot be mixed' in ev['res'].get('msg', '') \
@@ -1269,6 +1457,9 @@ def run(ctx):
                         'a Decimal without fractional digits has no literal denoting exactly it: such parameter sets get no literal twin',
                         'the value of a connective is the pinned one (DESIGN Appendix B: AND stops at the first NULL or false operand, '
                         'OR is Kleene); the relational folding legs (folded = per row = parameters) do not depend on it',
+                        'scans over columns of constants compare values as they are rendered: a decimal with its digits (1.5 and 1.50 are '
+                        'different results of str(), of neg() and of the arithmetic operators); the statement says "the same value" and '
+                        'BQL shows the digits (str(1.50) = \'1.50\')',
                         'TLC 1.8, Json/IOUtils community modules, CPython 3.12']
     only = getattr(ctx, 'only_legs', None)
     if not only or 'MC' in only:
@@ -1302,6 +1493,10 @@ def run(ctx):
                           {'kind': 'mc', 'behaviour': res.behaviour[:3000]}, 'MC')
         # non-vacuity of the folding law over the connectives: `a constant FALSE decides an AND wherever it stands`
         ctx.tlc('MC_BQLSession', 'MC_BQLSession_fold_absorb.cfg', leg='MC-nonvacuity', expect_violation='FoldLawAbsorb', workers=1)
+        # non-vacuity of the scan law (MC_BQLSession_fold.cfg checks it for the row-by-row evaluation and for a memo keyed
+        # by the cells as BQL values): a per-row memo keyed as the host language compares the cells -- TRUE, then 1, in one
+        # column -- gives a later row the value of an earlier one
+        ctx.tlc('MC_BQLSession', 'MC_BQLSession_scan_host.cfg', leg='MC-nonvacuity', expect_violation='ScanLawHost', workers=1)
     if not only or 'S2C' in only:
         s2c(ctx)
     if not only or 'C2S' in only:
@@ -1397,6 +1592,30 @@ def replay(ctx, rep):
             fold_case(ctx, beanquery.Connection(), bm.StrTab(), case, n)
         after = len(ctx.violations) + sum(v['n'] for v in ctx.known_hits.values())
         print('replay:', case['text'], '-- specification:', case['v'])
+        print('replay:', 'MISMATCH reproduced' if after > before else 'no mismatch')
+        return 1 if after > before else 0
+    if case.get('kind') == 'foldscan':
+        import beanquery
+        from beanquery.parser import ast
+        from harness import tables as ht
+        st = bm.StrTab()
+        conn = beanquery.Connection()
+        tree = ast.Select([ast.Target(build_x(case['e2'], st), 'r')], ast.Table('ks'), None, None, None, None, None, None)
+        conn.tables['ks'] = ht.HarnessTable('ks', [('k%d' % i, t) for i, t in enumerate(case['types'])],
+                                            [tuple(bm.to_py(list(c), st) for c in row) for row in case['rows']])
+        obs = bm.project(bm.run_raw(conn, tree), st)
+        print('replay: SELECT %s AS r FROM #ks, rows of #ks:' % case['shape'], case['rows'])
+        print('replay: row %d holds the constants of %s -- specification: %s' % (case['row'], case['text'], case['v']))
+        print('replay: the scan returns', json.dumps(obs)[:300])
+        bad = not obs['ok'] or len(obs['rows']) != len(case['rows']) or obs['rows'][case['row'] - 1] != [case['v']]
+        print('replay:', 'MISMATCH reproduced' if bad else 'no mismatch')
+        return 1 if bad else 0
+    if case.get('kind') == 'scan' or (case.get('kind') == 'c2s' and case['event'].get('scan') is not None):
+        # the scan once more on a connection of its own: every row vs the expression folded over that row's constants
+        sess = Session(ctx, {'tabs': {}, 'stmts': [], 'params': []})
+        before = len(ctx.violations) + sum(v['n'] for v in ctx.known_hits.values())
+        scan_folding(ctx, sess.conn, only=case['scan'] if case.get('kind') == 'scan' else case['event']['scan'], verbose=True)
+        after = len(ctx.violations) + sum(v['n'] for v in ctx.known_hits.values())
         print('replay:', 'MISMATCH reproduced' if after > before else 'no mismatch')
         return 1 if after > before else 0
     if case.get('kind') == 'ledger':
